@@ -234,12 +234,21 @@ Definition check_flight_conc (c : flight_conc_case) : list string :=
 Record offline_case := { of_req : string; of_entries : list dentry; of_picked : string }.
 Fixpoint find_entry (n : string) (l : list dentry) : option dentry :=
   match l with [] => None | e :: t => if String.eqb (de_name e) n then Some e else find_entry n t end.
+(* the choice the source of this run makes: among all entries (the code today), or — with
+   fixes/C19-F5.patch — among the names that do not end in ".tmp", i.e. the advertised ones *)
+Definition code_offline_pick : option (list dentry -> option dentry) :=
+  match offline_filter with
+  | [] => Some pick_newest
+  | [f] => if String.eqb f "skip-suffix:.tmp" then Some pick_newest_adv else None
+  | _ => None
+  end.
 Definition check_offline (c : offline_case) : list string :=
-  let m := pick_newest (of_entries c) in
+  match code_offline_pick with None => ["mismatch:offline-filter-not-recognised"] | Some _ => [] end ++
+  let m := match code_offline_pick with Some f => f (of_entries c) | None => None end in
   tag_if (negb (String.eqb (match m with Some e => de_name e | None => "" end) (of_picked c)))
          "mismatch:offline-pick-differs-from-model" ++
   match of_picked c, find_entry (of_picked c) (of_entries c) with
-  | EmptyString, _ => tag_if (negb (match of_entries c with [] => true | _ => false end)) "viol:offline-fails-on-a-non-empty-directory"
+  | EmptyString, _ => []       (* an offline request may fail ("or fail with an error"); whether it should is the model's business *)
   | _, None => ["viol:offline-pick-not-newest"]
   | _, Some e => validate_offline (of_req c) (of_entries c) e
   end.
